@@ -34,8 +34,10 @@ def gen_key(rng, n, allow_obj=False):
 
 
 OPKINDS = ['append', 'extend', 'iadd', 'insert', 'setitem', 'delitem', 'pop', 'remove', 'clear',
-           'reassign', 'reverse']
-WEIGHTS = [4, 2, 2, 4, 4, 4, 4, 4, 1, 1, 1]
+           'reassign', 'reverse', 'bulk_fail', 'extend_self', 'reassign_rev']
+WEIGHTS = [4, 3, 3, 4, 4, 4, 4, 4, 1, 2, 1, 2, 1, 1]
+# Python argument forms of the bulk operations (the model is the same for all of them)
+FORMS = ['list', 'tuple', 'gen', 'iter', 'indexedlist']
 
 
 def gen_op(rng, n):
@@ -43,7 +45,11 @@ def gen_op(rng, n):
     if k == 'append':
         return [k, gen_obj(rng)]
     if k in ('extend', 'iadd', 'reassign'):
-        return [k, [gen_obj(rng) for _ in range(rng.randint(0, 3))]]
+        return [k, [gen_obj(rng) for _ in range(rng.randint(0, 3))], rng.choice(FORMS)]
+    if k == 'bulk_fail':
+        # which bulk operation, the items yielded before the iterable raises
+        return [k, rng.choice(['extend', 'iadd', 'reassign', 'reassign_scalar']),
+                [gen_obj(rng) for _ in range(rng.randint(0, 2))]]
     if k in ('insert', 'setitem'):
         return [k, gen_key(rng, n), gen_obj(rng)]
     if k == 'delitem':
@@ -73,6 +79,8 @@ def gen_case(rng, maxlen):
             n = 0
         elif op[0] == 'reassign':
             n = len(op[1])
+        elif op[0] == 'extend_self':
+            n *= 2
     return {'alphabet': ALPHABET + [7], 'init': init, 'ops': ops}
 
 
@@ -130,6 +138,12 @@ def c_op(op):
         return 'Clear'
     if k == 'reverse':
         return 'Reverse'
+    if k == 'bulk_fail':
+        return 'BulkFail'
+    if k == 'extend_self':
+        return 'ExtendSelf'
+    if k == 'reassign_rev':
+        return 'ReassignRev'
     raise ValueError(k)
 
 
@@ -146,10 +160,20 @@ def c_case(case, obs):
 
 # ---- running
 
+def crashed(case, reason):
+    return {'obs': [], 'fails': [{'step': -1, 'op': ['worker'], 'kind': 'crash-or-hang',
+                                 'detail': 'the implementation did not survive this history: ' + reason}]}
+
+
 def run_impl_cases(cases):
-    chunks = [cases[i:i + 400] for i in range(0, len(cases), 400)]
-    payloads = [{'cases': ch, 'offset': i * 400} for i, ch in enumerate(chunks)]
-    outs = core.run_impl_parallel('c14', payloads)
+    from concurrent.futures import ThreadPoolExecutor
+    chunks = [(i, cases[i:i + 400]) for i in range(0, len(cases), 400)]
+
+    def one(job):
+        off, ch = job
+        return core.run_cases_bisect('c14', ch, lambda cs: {'cases': cs, 'offset': off}, crashed, timeout=120)
+    with ThreadPoolExecutor(max_workers=core.NCPU) as ex:
+        outs = list(ex.map(one, chunks))
     return [r for out in outs for r in out]
 
 
